@@ -131,6 +131,7 @@ fn alpha_tall(cfg: &Cfg) -> Vec<Op> {
 /// sequences is delivered as ONE feed_str call and judged by the same oracle.
 pub struct SysMulti {
     composites: Vec<Op>,
+    unit_composites: Vec<Op>,
 }
 
 const MULTI_BASE: &[&str] = &[
@@ -160,7 +161,29 @@ impl SysMulti {
             out.extend(next.iter().cloned());
             level = next;
         }
-        SysMulti { composites: out.iter().map(|s| Op::raw(s)).collect() }
+        // second family, from the filled start screen only: every sequence of <= 4 UNITS, a unit
+        // being "go to row r, then mark" with the marks that cover a RANGE of rows from the
+        // cursor (ED 0: to the end, ED 1: from the start, a text that wraps over two rows) or
+        // one row (a character, EL) - overlapping, nested and touching ranges in every order
+        let mut units: Vec<String> = vec![];
+        for r in 1..=5 {
+            for a in ["\x1b[J", "\x1b[1J", "x", "wxyz", "\x1b[K"] {
+                units.push(format!("\x1b[{};1H{}", r, a));
+            }
+        }
+        let mut uc: Vec<String> = vec![];
+        let mut level: Vec<String> = units.clone();
+        for _ in 2..=tier.pick(4, 5) {
+            let mut next = vec![];
+            for l in &level {
+                for u in &units {
+                    next.push(format!("{}{}", l, u));
+                }
+            }
+            uc.extend(next.iter().cloned());
+            level = next;
+        }
+        SysMulti { composites: out.iter().map(|s| Op::raw(s)).collect(), unit_composites: uc.iter().map(|s| Op::raw(s)).collect() }
     }
 }
 
@@ -175,8 +198,9 @@ impl System for SysMulti {
     fn key(&self, vt: &Vt) -> u128 {
         fingerprint(vt)
     }
-    fn on_state(&self, _cfg: &Cfg, _h: &[&Op], _vt: &mut Vt, rebuild: &dyn Fn() -> Vt, out: &mut Out) {
-        for comp in &self.composites {
+    fn on_state(&self, _cfg: &Cfg, h: &[&Op], _vt: &mut Vt, rebuild: &dyn Fn() -> Vt, out: &mut Out) {
+        let extra: &[Op] = if h.is_empty() { &self.unit_composites } else { &[] };
+        for comp in self.composites.iter().chain(extra.iter()) {
             let mut v = rebuild();
             let before = out.violations.len();
             crate::engine::watch_note(&comp.text);
